@@ -526,3 +526,19 @@ func (p *Party) refReceive(r *CallResult, msg []byte) {
 	}
 	r.Out = p.refOut(out)
 }
+
+// SMPStartRaw / SMPAnswerRaw hand the caller's slice to the library as it is (no
+// defensive copy), the way an application that keeps the secret in one buffer would.
+func (p *Party) SMPStartRaw(question string, secret []byte) *CallResult {
+	return p.call("smpstart", append([]byte(question+"|"), secret...), func(r *CallResult) {
+		out, err := p.Conv.StartAuthenticate(question, secret)
+		r.Out, r.Err = cpMsgs(out), errStr(err)
+	})
+}
+
+func (p *Party) SMPAnswerRaw(secret []byte) *CallResult {
+	return p.call("smpanswer", cp(secret), func(r *CallResult) {
+		out, err := p.Conv.ProvideAuthenticationSecret(secret)
+		r.Out, r.Err = cpMsgs(out), errStr(err)
+	})
+}
